@@ -3,6 +3,7 @@
 #![allow(clippy::type_complexity)]
 #![forbid(unsafe_code)]
 #![deny(unreachable_pub)]
+#![allow(unexpected_cfgs)]
 
 use std::{hash::Hash, mem::size_of};
 
@@ -17,6 +18,9 @@ mod pager;
 mod stategraph;
 pub mod statetable;
 
+#[cfg(grmtools_verif)]
+#[doc(hidden)]
+pub use crate::pager::{PagerTrace, take_pager_trace};
 pub use crate::{
     stategraph::StateGraph,
     statetable::{Action, StateTable, StateTableError, StateTableErrorKind},
